@@ -66,9 +66,11 @@ type h8State struct {
 
 var h8Inputs = map[string][]string{
 	"valid":   {"SELECT a, b FROM t WHERE a = 1", "INSERT INTO t (a) VALUES (1)", "SELECT a -- c1\nFROM t /* c2 */ WHERE b = 2", "WITH c AS (SELECT 1) SELECT * FROM c"},
-	"invalid": {"SELECT a,\n  b\nFROM t\nWHERE ]", "SELECT FROM", "INSERT INTO t VALUES (", "SELECT a FROM t WHERE a = 'unterminated", "SELECT 'bad \\q escape'", "SELECT a FROM t;;\n\nSELECT ] x"},
-	"deep":    {"SELECT " + strings.Repeat("(", 150) + "1" + strings.Repeat(")", 150), "SELECT " + strings.Repeat("f(", 120) + "1" + strings.Repeat(")", 120)},
-	"multi":   {"SELECT 1;\nSELECT 2;\nSELECT a FROM", ";; SELECT 1", "SELECT a FROM t LIMIT 10, 20"},
+	"invalid": {"SELECT - FROM t", "INSERT INTO t VALUES (1, -)", "SELECT -(a + ) FROM t", "SELECT +(1", "SELECT a,\n  b\nFROM t\nWHERE ]", "SELECT FROM", "INSERT INTO t VALUES (", "SELECT a FROM t WHERE a = 'unterminated", "SELECT 'bad \\q escape'", "SELECT a FROM t;;\n\nSELECT ] x"},
+	"deep": {"SELECT " + strings.Repeat("(", 150) + "1" + strings.Repeat(")", 150), "SELECT " + strings.Repeat("f(", 120) + "1" + strings.Repeat(")", 120),
+		"SELECT " + strings.Repeat("- ", 150) + "1", "SELECT " + strings.Repeat("+ ", 130) + "a FROM t", "SELECT " + strings.Repeat("NOT ", 140) + "a", "SELECT " + strings.Repeat("CASE WHEN a THEN ", 110) + "1" + strings.Repeat(" END", 110),
+		"SELECT " + strings.Repeat("- ", 60) + " FROM t", "SELECT a FROM t WHERE " + strings.Repeat("(", 60) + "- "},
+	"multi": {"SELECT 1;\nSELECT 2;\nSELECT a FROM", ";; SELECT 1", "SELECT a FROM t LIMIT 10, 20"},
 }
 
 var h8Kinds = []string{"tokenize", "parse", "parse-ctx", "parse-pos", "parse-recovery", "parse-cancelled", "opt-strict", "opt-mysql", "tok-mysql", "reset-p", "reset-t", "release-p", "pool-p", "pool-t"}
@@ -164,6 +166,10 @@ var h8Probes = []h8Probe{
 	{"error-location-plain", "SELECT a FROM t WHERE ]", "parse"},
 	{"error-location-positions", "SELECT a\nFROM t\nWHERE ]", "parse-pos"},
 	{"depth-90", "SELECT " + strings.Repeat("(", 90) + "1" + strings.Repeat(")", 90), "parse"},
+	{"depth-96", "SELECT " + strings.Repeat("(", 96) + "1" + strings.Repeat(")", 96), "parse"},
+	{"depth-97", "SELECT " + strings.Repeat("(", 97) + "1" + strings.Repeat(")", 97), "parse"},
+	{"depth-98", "SELECT " + strings.Repeat("(", 98) + "1" + strings.Repeat(")", 98), "parse"},
+	{"depth-99", "SELECT " + strings.Repeat("(", 99) + "1" + strings.Repeat(")", 99), "parse"},
 	{"valid-tree", "SELECT a, COUNT(*) FROM t JOIN u ON t.a = u.a WHERE b IN (1, 2) GROUP BY a", "parse"},
 	{"tokens-comments", "SELECT a -- one\nFROM t /* two */ WHERE `q` = \"r\"", "tokens"},
 	{"tokens-strings", "SELECT 'alice', 'b''c', 'tab\\there', $$dollar$$, \"quoted id\" FROM t WHERE x = 'y'", "tokens"},
